@@ -3,23 +3,34 @@
    Mech mirrors, function by function, what the C++ does (HEAD with the three `fix:` commits
    52ea7be [#43], 605aa41 [#11], c388113 [#44]; the machine of the code BEFORE those commits is kept in
    Pinned.v for the record) with its two parallel cleanup
-   stacks (src/backend/interpreter/core/interpreter.h:756 defer_stacks_, :760 destructor_stacks_):
+   stacks (src/backend/interpreter/core/interpreter.h:756 defer_stacks_, :760 destructor_stacks_) AND the
+   name-keyed part of the machinery: destructor_stacks_ holds (variable NAME, struct type) pairs, the
+   object itself is found again at cleanup time by VariableManager::find_variable(name) through
+   scope_stack, and double destruction is prevented by the flag Variable::destructor_called stored in
+   that variable slot:
 
      cleanup.cpp            push_scope / pop_scope / push_destructor_scope / pop_destructor_scope /
                             push_defer_scope / pop_defer_scope / add_defer / execute_pre_return_cleanup
-     interpreter.cpp        call_destructor, register_destructor_call, call_constructor, process (main)
+     interpreter.cpp        call_destructor (find_variable, destructor_called guard, own scope),
+                            register_destructor_call (value members with a destructor first, then the
+                            variable itself), call_constructor, process (main)
+     managers/variables/manager.cpp   find_variable: scope_stack searched from the innermost scope to
+                            the outermost one, ACROSS function activations
      initialization.cpp:151 destructor_stacks_ starts with one (global) level, defer_stacks_ empty
-     statement_list_executor.cpp  execute_statement_list, execute_compound_statement (4 catch arms)
+     statement_list_executor.cpp  execute_statement_list, execute_compound_statement (4 catch arms;
+                            a block opens cleanup levels but NO variable scope)
      control_flow_executor.cpp    execute_if_statement, execute_for_statement / execute_while_statement
      handlers/control/return.cpp  execute_return_statement
      evaluator/functions/call_impl.cpp  user function call: push_scope ... pop_scope on every path,
                             CbvStackGuard (hook CB_VERIF_STACKS) reporting a call that leaves the stacks
                             at another depth
-     managers/variables/declaration.cpp:2413  register_destructor_call before the constructor call
+     managers/variables/declaration.cpp:2449  scope_vars.insert_or_assign(name) into the CURRENT variable
+                            scope (= the function activation), :2465 register_destructor_call, then the
+                            constructor call
 
-   Spec is the structural reading of the property text: leaving a scope by any path runs that scope's
-   reached defers LIFO, then its objects' destructors LIFO; inner scopes before outer; a call's cleanup
-   is a function of the callee alone.
+   Spec is the structural reading of the property text on object IDENTITIES (variable names play no
+   role): leaving a scope by any path runs that scope's reached defers LIFO, then its objects'
+   destructors LIFO; inner scopes before outer; a call's cleanup is a function of the callee alone.
 
    Everything is total and computable; evaluation is fuelled (the fuel bounds the recursion depth, it is
    decremented at every recursive call, Mech and Spec consume it identically). *)
@@ -27,18 +38,38 @@ From Coq Require Import List Arith Bool.
 Import ListNotations.
 
 (* ------------------------------------------------------------------ skeleton language *)
+(* struct types with a destructor: R and Q are plain; W has a value member `R r` (destroyed after W's
+   own destructor body through the entry "<var>.r" that register_destructor_call pushes first) *)
+Inductive ty : Type := TR | TQ | TW.
+
+(* variable names as find_variable sees them: "x<i>" and the member path "x<i>.r" *)
+Inductive name : Type := NVar (x : nat) | NMem (x : nat).
+
+Definition ty_eqb (a b : ty) : bool :=
+  match a, b with TR, TR | TQ, TQ | TW, TW => true | _, _ => false end.
+
+Definition name_eqb (a b : name) : bool :=
+  match a, b with
+  | NVar x, NVar y => Nat.eqb x y
+  | NMem x, NMem y => Nat.eqb x y
+  | _, _ => false
+  end.
+
 Inductive cond : Type :=
 | CTrue | CFalse
-| CIter (j : nat).          (* "counter of the innermost enclosing loop of this function == j" *)
+| CIter (j : nat)           (* "counter of the innermost enclosing loop of this function == j" *)
+| CDepth.                   (* "n > 0": n is the depth parameter of the current function activation *)
 
 Inductive stmt : Type :=
-| SObj (k : nat)            (* R o<k>(<k>);   struct object with tracing constructor/destructor *)
-| SDefer (k : nat)          (* println("reg", k); defer println("defer", k); *)
+| SObj (x : nat) (t : ty) (k : nat)
+                            (* T x<x>(k + 100 * n);  struct object with tracing constructor/destructor;
+                               x is the VARIABLE NAME (small pool), k + 100 * n the object's identity *)
+| SDefer (k : nat)          (* println("reg", k + 100 * n); defer println("defer", k + 100 * n); *)
 | SMark (k : nat)           (* println("mark", k); *)
 | SBlock (b : block)        (* { ... } *)
 | SIf (c : cond) (t e : block)   (* if (c) { t } else { e }   (no else part printed when e is empty) *)
 | SLoop (n : nat) (b : block)    (* for (int i = 0; i < n; i++) { b }  /  while form *)
-| SCall (f : nat)           (* f<f>(); *)
+| SCall (f : nat)           (* f<f>(n - 1);   any function, also the current one or main's callers *)
 | SRet | SBrk | SCont
 with block : Type :=
 | BNil
@@ -47,71 +78,134 @@ with block : Type :=
 Definition prog := list block.     (* function bodies; function 0 is main *)
 
 Inductive event : Type :=
-| ECtor (k : nat) | EDtor (k : nat) | EReg (k : nat) | EDefer (k : nat) | EMark (k : nat)
+| ECtor (t : ty) (k : nat) | EDtor (t : ty) (k : nat) | EReg (k : nat) | EDefer (k : nat) | EMark (k : nat)
 | EImb (f d0 d1 t0 t1 s0 s1 : nat).   (* hook line "CBV call-imbalance fn=f defer=d0->d1 dtor=t0->t1 scopes=s0->s1" *)
 
 Inductive outcome : Type := ONormal | ORet | OBrk | OCont.   (* normal / Return- / Break- / ContinueException *)
 
-Definition cond_true (it : option nat) (c : cond) : bool :=
+Definition cond_true (n : nat) (it : option nat) (c : cond) : bool :=
   match c with
   | CTrue => true
   | CFalse => false
   | CIter j => match it with Some i => Nat.eqb i j | None => false end
+  | CDepth => negb (Nat.eqb n 0)
   end.
 
 Definition body (p : prog) (f : nat) : block := nth f p BNil.
 
+(* identity of the object / defer created by a statement with constant k in an activation with depth
+   parameter n *)
+Definition oid (n k : nat) : nat := k + 100 * n.
+
+(* what one declaration creates: the sub-objects (type, identity) in construction order ... *)
+Definition obj_parts (t : ty) (id : nat) : list (ty * nat) :=
+  match t with
+  | TW => [(TR, id + 50); (TW, id)]
+  | _ => [(t, id)]
+  end.
+(* ... and the (variable name, type) entries register_destructor_call pushes, same order *)
+Definition obj_entries (x : nat) (t : ty) : list (name * ty) :=
+  match t with
+  | TW => [(NMem x, TR); (NVar x, TW)]
+  | _ => [(NVar x, t)]
+  end.
+
+Definition ctor_ev (r : ty * nat) : event := ECtor (fst r) (snd r).
+Definition dtor_ev (r : ty * nat) : event := EDtor (fst r) (snd r).
+
 (* ------------------------------------------------------------------ Mech: state and cleanup.cpp *)
+(* a variable slot: (self.id, destructor_called) *)
+Definition slot := (nat * bool)%type.
+(* Scope::variables of one variable scope *)
+Definition frame := list (name * slot).
+
 Record state : Type := mk {
   dfs : list (list nat);     (* defer_stacks_; head = back(); a level lists defer ids in push_back order *)
-  dts : list (list nat);     (* destructor_stacks_; a level lists object ids in push_back order *)
-  scd : nat;                 (* scope_stack.size() *)
+  dts : list (list (name * ty));
+                             (* destructor_stacks_; a level lists (variable name, struct type) in push_back order *)
+  vars : list frame;         (* scope_stack; head = back() *)
   tr  : list event           (* stdout transcript (+ hook lines), oldest first *)
 }.
 
 Definition emit (es : list event) (st : state) : state :=
-  mk (dfs st) (dts st) (scd st) (tr st ++ es).
+  mk (dfs st) (dts st) (vars st) (tr st ++ es).
+
+Fixpoint lookup (F : frame) (x : name) : option slot :=
+  match F with
+  | [] => None
+  | (y, v) :: r => if name_eqb x y then Some v else lookup r x
+  end.
+
+(* variables/manager.cpp: find_variable - innermost scope first, all scopes of all activations *)
+Fixpoint find_var (Fs : list frame) (x : name) : option slot :=
+  match Fs with
+  | [] => None
+  | F :: r => match lookup F x with Some v => Some v | None => find_var r x end
+  end.
+
+(* var->destructor_called = true on the variable find_variable returns *)
+Fixpoint set_flag (F : frame) (x : name) : frame :=
+  match F with
+  | [] => []
+  | (y, (k, b)) :: r => if name_eqb x y then (y, (k, true)) :: r else (y, (k, b)) :: set_flag r x
+  end.
+
+Fixpoint mark_var (Fs : list frame) (x : name) : list frame :=
+  match Fs with
+  | [] => []
+  | F :: r => match lookup F x with Some _ => set_flag F x :: r | None => F :: mark_var r x end
+  end.
 
 (* cleanup.cpp: push_defer_scope *)
 Definition push_defer_scope (st : state) : state :=
-  mk ([] :: dfs st) (dts st) (scd st) (tr st).
+  mk ([] :: dfs st) (dts st) (vars st) (tr st).
 
 (* cleanup.cpp: pop_defer_scope - empty stack: return; else copy back(), pop_back, run reversed *)
 Definition pop_defer_scope (st : state) : state :=
   match dfs st with
   | [] => st
-  | l :: r => emit (map EDefer (rev l)) (mk r (dts st) (scd st) (tr st))
+  | l :: r => emit (map EDefer (rev l)) (mk r (dts st) (vars st) (tr st))
   end.
 
 (* cleanup.cpp: add_defer *)
 Definition add_defer (k : nat) (st : state) : state :=
   match dfs st with
   | [] => st
-  | l :: r => mk ((l ++ [k]) :: r) (dts st) (scd st) (tr st)
+  | l :: r => mk ((l ++ [k]) :: r) (dts st) (vars st) (tr st)
   end.
 
 (* cleanup.cpp: push_scope (variable scope + defer level + destructor level) *)
 Definition push_scope (st : state) : state :=
-  mk ([] :: dfs st) ([] :: dts st) (S (scd st)) (tr st).
+  mk ([] :: dfs st) ([] :: dts st) ([] :: vars st) (tr st).
 
 (* cleanup.cpp: push_destructor_scope (no variable scope) *)
 Definition push_destructor_scope (st : state) : state :=
-  mk ([] :: dfs st) ([] :: dts st) (scd st) (tr st).
+  mk ([] :: dfs st) ([] :: dts st) (vars st) (tr st).
 
 (* cleanup.cpp: pop_scope while is_calling_destructor_ is set: the destructor level is popped without
    running anything, then pop_defer_scope, then the variable scope *)
 Definition pop_scope_in_destructor (st : state) : state :=
-  let st1 := pop_defer_scope (mk (dfs st) (tl (dts st)) (scd st) (tr st)) in
-  mk (dfs st1) (dts st1) (pred (scd st1)) (tr st1).
+  let st1 := pop_defer_scope (mk (dfs st) (tl (dts st)) (vars st) (tr st)) in
+  mk (dfs st1) (dts st1) (tl (vars st1)) (tr st1).
 
-(* interpreter.cpp: call_destructor - sets is_calling_destructor_, push_scope, runs the body
-   (println("dtor", self.id)), pop_scope.  The destructor_called guard is never hit in this language
-   (theorem each_object_at_most_once). *)
-Definition call_destructor (k : nat) (st : state) : state :=
-  pop_scope_in_destructor (emit [EDtor k] (push_scope st)).
+(* interpreter.cpp: call_destructor(var_name, struct_type_name) -
+     var = find_variable(var_name); if (var && var->destructor_called) return;       [guard]
+     is_calling_destructor_ = true; push_scope; self = copy of *find_variable(var_name);
+     body of struct_type_name's destructor (println("<t>dtor", self.id)); mark the variable
+     destructor_called; pop_scope.
+   The type of the ENTRY selects the destructor body, the SLOT supplies self.id.
+   (find_variable == nullptr cannot happen on a run from init_state - every entry names a variable of
+   the activation that registered it, see Shape.v; the model does nothing then.) *)
+Definition call_destructor (x : name) (t : ty) (st : state) : state :=
+  match find_var (vars st) x with
+  | Some (k, false) =>
+      let st1 := pop_scope_in_destructor (emit [EDtor t k] (push_scope st)) in
+      mk (dfs st1) (dts st1) (mark_var (vars st1) x) (tr st1)
+  | _ => st
+  end.
 
-Definition run_destructors (l : list nat) (st : state) : state :=
-  fold_left (fun s k => call_destructor k s) (rev l) st.
+Definition run_destructors (l : list (name * ty)) (st : state) : state :=
+  fold_left (fun s e => call_destructor (fst e) (snd e) s) (rev l) st.
 
 (* cleanup.cpp: pop_destructor_scope - pop_defer_scope FIRST (fix 52ea7be), then the destructors of
    back() reversed *)
@@ -119,38 +213,60 @@ Definition pop_destructor_scope (st : state) : state :=
   let st1 := pop_defer_scope st in
   match dts st1 with
   | [] => st1
-  | l :: r => run_destructors l (mk (dfs st1) r (scd st1) (tr st1))
+  | l :: r => run_destructors l (mk (dfs st1) r (vars st1) (tr st1))
   end.
 
 (* cleanup.cpp: pop_scope - same, then variable_manager_->pop_scope() *)
 Definition pop_scope (st : state) : state :=
   let st1 := pop_destructor_scope st in
-  mk (dfs st1) (dts st1) (pred (scd st1)) (tr st1).
+  mk (dfs st1) (dts st1) (tl (vars st1)) (tr st1).
 
 (* cleanup.cpp: execute_pre_return_cleanup (fix 605aa41) - innermost defers: copied, the level is
    CLEARED (not popped), run reversed; then innermost destructors: copied, level cleared, run reversed;
    each half only when its list is non-empty *)
 Definition pre_return_cleanup (st : state) : state :=
   let st1 := match dfs st with
-             | ((_ :: _) as l) :: r => emit (map EDefer (rev l)) (mk ([] :: r) (dts st) (scd st) (tr st))
+             | ((_ :: _) as l) :: r => emit (map EDefer (rev l)) (mk ([] :: r) (dts st) (vars st) (tr st))
              | _ => st
              end in
   match dts st1 with
-  | ((_ :: _) as l) :: r => run_destructors l (mk (dfs st1) ([] :: r) (scd st1) (tr st1))
+  | ((_ :: _) as l) :: r => run_destructors l (mk (dfs st1) ([] :: r) (vars st1) (tr st1))
   | _ => st1
   end.
 
-(* interpreter.cpp: register_destructor_call - nothing when the stack is empty *)
-Definition register_destructor (k : nat) (st : state) : state :=
+(* interpreter.cpp: register_destructor_call - nothing when the stack is empty, else push_back on back() *)
+Definition register_destructor (e : name * ty) (st : state) : state :=
   match dts st with
   | [] => st
-  | l :: r => mk (dfs st) ((l ++ [k]) :: r) (scd st) (tr st)
+  | l :: r => mk (dfs st) ((l ++ [e]) :: r) (vars st) (tr st)
   end.
 
-(* declaration.cpp:2413 + interpreter.cpp call_constructor: register, then push_scope, constructor
-   body (println("ctor", k)), pop_scope *)
-Definition declare_obj (k : nat) (st : state) : state :=
-  pop_scope (emit [ECtor k] (push_scope (register_destructor k st))).
+(* ... value members with a destructor first (recursion of register_destructor_call), then the variable *)
+Definition register_obj (x : nat) (t : ty) (st : state) : state :=
+  fold_left (fun s e => register_destructor e s) (obj_entries x t) st.
+
+(* declaration.cpp:2449 insert_or_assign(name, fresh Variable) into current_scope().variables: a fresh
+   slot (destructor_called = false) that REPLACES whatever this activation bound to the name before - blocks
+   open no variable scope.  For W the member variable "x.r" is (re)written too; its destructor_called
+   flag survives a re-declaration in the same activation (observed on the binary, e.g. `{ W a(1); }
+   { W a(2); }`: the second a.r is never destroyed - finding C06-redeclared-member-flag-stale). *)
+Definition obj_slots (F : frame) (x : nat) (t : ty) (id : nat) : frame :=
+  match t with
+  | TW => (NVar x, (id, false))
+          :: (NMem x, (id + 50, match lookup F (NMem x) with Some (_, b) => b | None => false end)) :: F
+  | _ => (NVar x, (id, false)) :: F
+  end.
+
+Definition bind_obj (x : nat) (t : ty) (id : nat) (st : state) : state :=
+  match vars st with
+  | [] => st
+  | F :: r => mk (dfs st) (dts st) (obj_slots F x t id :: r) (tr st)
+  end.
+
+(* declaration.cpp:2449-2501 + interpreter.cpp call_constructor: bind, register, then push_scope,
+   constructor body (prints one "ctor" line per sub-object), pop_scope *)
+Definition declare_obj (x : nat) (t : ty) (id : nat) (st : state) : state :=
+  pop_scope (emit (map ctor_ev (obj_parts t id)) (push_scope (register_obj x t (bind_obj x t id st)))).
 
 (* println("reg", k); defer println("defer", k); *)
 Definition defer_stmt (k : nat) (st : state) : state :=
@@ -167,12 +283,13 @@ Definition compound_close (r : option (outcome * state)) : option (outcome * sta
 Definition depths_differ (a b : state) : bool :=
   negb (Nat.eqb (length (dfs a)) (length (dfs b)) &&
         Nat.eqb (length (dts a)) (length (dts b)) &&
-        Nat.eqb (scd a) (scd b)).
+        Nat.eqb (length (vars a)) (length (vars b))).
 
 Definition guard_report (f : nat) (before after : state) : state :=
   if depths_differ before after
   then emit [EImb f (length (dfs before)) (length (dfs after))
-                    (length (dts before)) (length (dts after)) (scd before) (scd after)] after
+                    (length (dts before)) (length (dts after))
+                    (length (vars before)) (length (vars after))] after
   else after.
 
 (* call_impl.cpp: normal end and ReturnException end the call; Break/Continue leave through
@@ -180,32 +297,34 @@ Definition guard_report (f : nat) (before after : state) : state :=
 Definition call_outcome (o : outcome) : outcome :=
   match o with ORet => ONormal | _ => o end.
 
-Fixpoint mexec (fuel : nat) (p : prog) (it : option nat) (s : stmt) (st : state)
+(* n: the depth parameter of the current activation (f<g>(n - 1) passes pred n; only `n > 0` and
+   k + 100 * n observe it) *)
+Fixpoint mexec (fuel : nat) (p : prog) (n : nat) (it : option nat) (s : stmt) (st : state)
   : option (outcome * state) :=
   match fuel with
   | O => None
   | S f =>
     match s with
-    | SObj k => Some (ONormal, declare_obj k st)
-    | SDefer k => Some (ONormal, defer_stmt k st)
+    | SObj x t k => Some (ONormal, declare_obj x t (oid n k) st)
+    | SDefer k => Some (ONormal, defer_stmt (oid n k) st)
     | SMark k => Some (ONormal, emit [EMark k] st)
-    | SBlock b => compound_close (mexec_b f p it b (push_destructor_scope st))
+    | SBlock b => compound_close (mexec_b f p n it b (push_destructor_scope st))
     | SIf c t e =>
-        if cond_true it c then compound_close (mexec_b f p it t (push_destructor_scope st))
+        if cond_true n it c then compound_close (mexec_b f p n it t (push_destructor_scope st))
         else match e with
              | BNil => Some (ONormal, st)
-             | _ => compound_close (mexec_b f p it e (push_destructor_scope st))
+             | _ => compound_close (mexec_b f p n it e (push_destructor_scope st))
              end
-    | SLoop n b =>
+    | SLoop m b =>
         (* control_flow_executor.cpp: push_defer_scope; iterations; pop_defer_scope - also in the
            ReturnException arm of both loop executors (fix c388113) *)
-        match mloop f p n 0 b (push_defer_scope st) with
+        match mloop f p n m 0 b (push_defer_scope st) with
         | None => None
         | Some (ORet, st') => Some (ORet, pop_defer_scope st')
         | Some (_, st') => Some (ONormal, pop_defer_scope st')
         end
     | SCall g =>
-        match mexec_b f p None (body p g) (push_scope st) with
+        match mexec_b f p (pred n) None (body p g) (push_scope st) with
         | None => None
         | Some (o, st') => Some (call_outcome o, guard_report g st (pop_scope st'))
         end
@@ -214,7 +333,7 @@ Fixpoint mexec (fuel : nat) (p : prog) (it : option nat) (s : stmt) (st : state)
     | SCont => Some (OCont, st)
     end
   end
-with mexec_b (fuel : nat) (p : prog) (it : option nat) (b : block) (st : state)
+with mexec_b (fuel : nat) (p : prog) (n : nat) (it : option nat) (b : block) (st : state)
   : option (outcome * state) :=
   match fuel with
   | O => None
@@ -222,35 +341,36 @@ with mexec_b (fuel : nat) (p : prog) (it : option nat) (b : block) (st : state)
     match b with
     | BNil => Some (ONormal, st)
     | BCons s r =>
-        match mexec f p it s st with
+        match mexec f p n it s st with
         | None => None
-        | Some (ONormal, st') => mexec_b f p it r st'
+        | Some (ONormal, st') => mexec_b f p n it r st'
         | Some (o, st') => Some (o, st')
         end
     end
   end
-with mloop (fuel : nat) (p : prog) (n i : nat) (b : block) (st : state)
+with mloop (fuel : nat) (p : prog) (n : nat) (m i : nat) (b : block) (st : state)
   : option (outcome * state) :=
   match fuel with
   | O => None
   | S f =>
-    if n <=? i then Some (ONormal, st)
-    else match compound_close (mexec_b f p (Some i) b (push_destructor_scope st)) with
+    if m <=? i then Some (ONormal, st)
+    else match compound_close (mexec_b f p n (Some i) b (push_destructor_scope st)) with
          | None => None
-         | Some (ONormal, st') => mloop f p n (S i) b st'
-         | Some (OCont, st') => mloop f p n (S i) b st'
+         | Some (ONormal, st') => mloop f p n m (S i) b st'
+         | Some (OCont, st') => mloop f p n m (S i) b st'
          | Some (OBrk, st') => Some (ONormal, st')
          | Some (ORet, st') => Some (ORet, st')
          end
   end.
 
-(* initialization.cpp:151 *)
-Definition init_state : state := mk [] [[]] 1 [].
+(* initialization.cpp:151; scope_stack starts with one scope *)
+Definition init_state : state := mk [] [[]] [[]] [].
 
 (* interpreter.cpp Interpreter::process: push_scope; body; pop_scope (also in the ReturnException arm).
-   A Break/Continue that escapes is not caught: the run aborts (flag false, nothing popped). *)
-Definition mrun (fuel : nat) (p : prog) : option (bool * state) :=
-  match mexec_b fuel p None (body p 0) (push_scope init_state) with
+   A Break/Continue that escapes is not caught: the run aborts (flag false, nothing popped).
+   n0: main's `int n = n0;` *)
+Definition mrun (fuel : nat) (p : prog) (n0 : nat) : option (bool * state) :=
+  match mexec_b fuel p n0 None (body p 0) (push_scope init_state) with
   | None => None
   | Some (ONormal, st) => Some (true, pop_scope st)
   | Some (ORet, st) => Some (true, pop_scope st)
@@ -258,45 +378,47 @@ Definition mrun (fuel : nat) (p : prog) : option (bool * state) :=
   end.
 
 (* ------------------------------------------------------------------ Spec: structural cleanup order *)
-Definition sres := (outcome * list event * list nat * list nat)%type.
+Definition sres := (outcome * list event * list nat * list (ty * nat))%type.
 
 (* a scope is left (by whatever outcome): its reached defers LIFO, then its objects LIFO *)
 Definition scope_close (r : option sres) : option (outcome * list event) :=
   match r with
   | None => None
-  | Some (o, t, D, T) => Some (o, t ++ map EDefer (rev D) ++ map EDtor (rev T))
+  | Some (o, t, D, T) => Some (o, t ++ map EDefer (rev D) ++ map dtor_ev (rev T))
   end.
 
-Definition lift_scope (r : option (outcome * list event)) (D T : list nat) : option sres :=
+Definition lift_scope (r : option (outcome * list event)) (D : list nat) (T : list (ty * nat)) : option sres :=
   match r with
   | None => None
   | Some (o, t) => Some (o, t, D, T)
   end.
 
-(* D, T: the defers reached / objects constructed so far in the CURRENT scope *)
-Fixpoint sexec (fuel : nat) (p : prog) (it : option nat) (s : stmt) (D T : list nat) : option sres :=
+(* D, T: the defers reached / objects constructed so far in the CURRENT scope.  The variable name of
+   an object plays no role. *)
+Fixpoint sexec (fuel : nat) (p : prog) (n : nat) (it : option nat) (s : stmt) (D : list nat) (T : list (ty * nat))
+  : option sres :=
   match fuel with
   | O => None
   | S f =>
     match s with
-    | SObj k => Some (ONormal, [ECtor k], D, T ++ [k])
-    | SDefer k => Some (ONormal, [EReg k], D ++ [k], T)
+    | SObj _ t k => Some (ONormal, map ctor_ev (obj_parts t (oid n k)), D, T ++ obj_parts t (oid n k))
+    | SDefer k => Some (ONormal, [EReg (oid n k)], D ++ [oid n k], T)
     | SMark k => Some (ONormal, [EMark k], D, T)
-    | SBlock b => lift_scope (scope_close (sexec_b f p it b [] [])) D T
+    | SBlock b => lift_scope (scope_close (sexec_b f p n it b [] [])) D T
     | SIf c t e =>
-        if cond_true it c then lift_scope (scope_close (sexec_b f p it t [] [])) D T
+        if cond_true n it c then lift_scope (scope_close (sexec_b f p n it t [] [])) D T
         else match e with
              | BNil => Some (ONormal, [], D, T)
-             | _ => lift_scope (scope_close (sexec_b f p it e [] [])) D T
+             | _ => lift_scope (scope_close (sexec_b f p n it e [] [])) D T
              end
-    | SLoop n b =>
-        match sloop f p n 0 b with
+    | SLoop m b =>
+        match sloop f p n m 0 b with
         | None => None
         | Some (ORet, t) => Some (ORet, t, D, T)
         | Some (_, t) => Some (ONormal, t, D, T)
         end
     | SCall g =>
-        match scope_close (sexec_b f p None (body p g) [] []) with
+        match scope_close (sexec_b f p (pred n) None (body p g) [] []) with
         | None => None
         | Some (o, t) => Some (call_outcome o, t, D, T)
         end
@@ -305,17 +427,18 @@ Fixpoint sexec (fuel : nat) (p : prog) (it : option nat) (s : stmt) (D T : list 
     | SCont => Some (OCont, [], D, T)
     end
   end
-with sexec_b (fuel : nat) (p : prog) (it : option nat) (b : block) (D T : list nat) : option sres :=
+with sexec_b (fuel : nat) (p : prog) (n : nat) (it : option nat) (b : block) (D : list nat) (T : list (ty * nat))
+  : option sres :=
   match fuel with
   | O => None
   | S f =>
     match b with
     | BNil => Some (ONormal, [], D, T)
     | BCons s r =>
-        match sexec f p it s D T with
+        match sexec f p n it s D T with
         | None => None
         | Some (ONormal, t, D', T') =>
-            match sexec_b f p it r D' T' with
+            match sexec_b f p n it r D' T' with
             | None => None
             | Some (o, t2, D2, T2) => Some (o, t ++ t2, D2, T2)
             end
@@ -323,17 +446,17 @@ with sexec_b (fuel : nat) (p : prog) (it : option nat) (b : block) (D T : list n
         end
     end
   end
-with sloop (fuel : nat) (p : prog) (n i : nat) (b : block) : option (outcome * list event) :=
+with sloop (fuel : nat) (p : prog) (n : nat) (m i : nat) (b : block) : option (outcome * list event) :=
   match fuel with
   | O => None
   | S f =>
-    if n <=? i then Some (ONormal, [])
-    else match scope_close (sexec_b f p (Some i) b [] []) with
+    if m <=? i then Some (ONormal, [])
+    else match scope_close (sexec_b f p n (Some i) b [] []) with
          | None => None
          | Some (ONormal, t) =>
-             match sloop f p n (S i) b with None => None | Some (o, t2) => Some (o, t ++ t2) end
+             match sloop f p n m (S i) b with None => None | Some (o, t2) => Some (o, t ++ t2) end
          | Some (OCont, t) =>
-             match sloop f p n (S i) b with None => None | Some (o, t2) => Some (o, t ++ t2) end
+             match sloop f p n m (S i) b with None => None | Some (o, t2) => Some (o, t ++ t2) end
          | Some (OBrk, t) => Some (ONormal, t)
          | Some (ORet, t) => Some (ORet, t)
          end
@@ -341,11 +464,44 @@ with sloop (fuel : nat) (p : prog) (n i : nat) (b : block) : option (outcome * l
 
 (* whole program: main's body is a scope; an escaping Break/Continue is a run-time error (abort, no
    cleanup - not a scope exit in the sense of the property) *)
-Definition srun (fuel : nat) (p : prog) : option (bool * list event) :=
-  match sexec_b fuel p None (body p 0) [] [] with
+Definition srun (fuel : nat) (p : prog) (n0 : nat) : option (bool * list event) :=
+  match sexec_b fuel p n0 None (body p 0) [] [] with
   | None => None
-  | Some (ONormal, t, D, T) => Some (true, t ++ map EDefer (rev D) ++ map EDtor (rev T))
-  | Some (ORet, t, D, T) => Some (true, t ++ map EDefer (rev D) ++ map EDtor (rev T))
+  | Some (ONormal, t, D, T) => Some (true, t ++ map EDefer (rev D) ++ map dtor_ev (rev T))
+  | Some (ORet, t, D, T) => Some (true, t ++ map EDefer (rev D) ++ map dtor_ev (rev T))
   | Some (_, t, D, T) => Some (false, t)
   end.
 
+(* ------------------------------------------------------------------ the programs on which the
+   name-keyed machinery is transparent (static, decidable): inside one function body no object
+   declaration re-uses a variable name that an earlier declaration of the same block or of an enclosing
+   block uses (sibling blocks, successive loop iterations, other functions, other activations of the
+   same function may re-use names freely), and W objects (member flag, see obj_slots) are not used.
+   L: names declared so far in the current block, N0: names declared in the enclosing blocks. *)
+Fixpoint mem_name (x : name) (l : list name) : bool :=
+  match l with
+  | [] => false
+  | y :: r => name_eqb x y || mem_name x r
+  end.
+
+Definition decl_s (s : stmt) : list name :=
+  match s with
+  | SObj x t _ => map fst (obj_entries x t)
+  | _ => []
+  end.
+
+Fixpoint wf_s (N : list name) (s : stmt) : bool :=
+  match s with
+  | SObj x t _ => negb (mem_name (NVar x) N) && negb (ty_eqb t TW)
+  | SBlock b => wf_b [] N b
+  | SIf _ t e => wf_b [] N t && wf_b [] N e
+  | SLoop _ b => wf_b [] N b
+  | _ => true
+  end
+with wf_b (L N0 : list name) (b : block) : bool :=
+  match b with
+  | BNil => true
+  | BCons s r => wf_s (L ++ N0) s && wf_b (L ++ decl_s s) N0 r
+  end.
+
+Definition wf_prog (p : prog) : bool := forallb (wf_b [] []) p.
